@@ -9,8 +9,12 @@
 #[path = "../../replay/src/oracle_c05.rs"]
 pub mod oracle_c05;
 
+#[path = "../../replay/src/oracle_misc.rs"]
+pub mod oracle_misc;
+
 #[cfg(kani)]
 mod harness {
+    use super::oracle_misc::*;
     use super::oracle_c05::*;
     use pricelevel::{OrderId, OrderType, PegReferenceType, Side, TimeInForce};
 
@@ -70,5 +74,55 @@ mod harness {
         let amt: u64 = kani::any();
         let auto: bool = kani::any();
         run(OrderType::ReserveOrder { id: OrderId::from_u64(id), price, visible_quantity: vis, hidden_quantity: hid, side: any_side(), timestamp: kani::any(), time_in_force: any_tif(), replenish_threshold: thr, replenish_amount: if has_amt { Some(amt) } else { None }, auto_replenish: auto, extra_fields: () });
+    }
+
+    fn any_order() -> OrderType<()> {
+        let (id, price, vis, hid): (u64, u64, u64, u64) = (kani::any(), kani::any(), kani::any(), kani::any());
+        let side = any_side();
+        let ts: u64 = kani::any();
+        let tif = any_tif();
+        let id = OrderId::from_u64(id);
+        match kani::any::<u8>() % 7 {
+            0 => OrderType::Standard { id, price, quantity: vis, side, timestamp: ts, time_in_force: tif, extra_fields: () },
+            1 => OrderType::IcebergOrder { id, price, visible_quantity: vis, hidden_quantity: hid, side, timestamp: ts, time_in_force: tif, extra_fields: () },
+            2 => OrderType::PostOnly { id, price, quantity: vis, side, timestamp: ts, time_in_force: tif, extra_fields: () },
+            3 => OrderType::TrailingStop { id, price, quantity: vis, side, timestamp: ts, time_in_force: tif, trail_amount: kani::any(), last_reference_price: kani::any(), extra_fields: () },
+            4 => OrderType::PeggedOrder { id, price, quantity: vis, side, timestamp: ts, time_in_force: tif, reference_price_offset: kani::any(), reference_price_type: any_peg(), extra_fields: () },
+            5 => OrderType::MarketToLimit { id, price, quantity: vis, side, timestamp: ts, time_in_force: tif, extra_fields: () },
+            _ => { let has: bool = kani::any(); let amt: u64 = kani::any();
+                   OrderType::ReserveOrder { id, price, visible_quantity: vis, hidden_quantity: hid, side, timestamp: ts, time_in_force: tif, replenish_threshold: kani::any(), replenish_amount: if has { Some(amt) } else { None }, auto_replenish: kani::any(), extra_fields: () } }
+        }
+    }
+
+    /// C07: with_reduced_quantity over every variant and every u64 (loop-free: complete)
+    #[kani::proof]
+    fn with_reduced_quantity_all() {
+        let o = any_order();
+        let q: u64 = kani::any();
+        let r = o.with_reduced_quantity(q);
+        let (id, sd, ou) = wrq_eval(&o, q, &r);
+        kani::assert(id, "with_reduced_quantity.identity_kept");
+        kani::assert(sd, "with_reduced_quantity.sets_display");
+        kani::assert(ou, "with_reduced_quantity.others_unchanged");
+    }
+
+    /// C05: refresh_iceberg over every variant (loop-free: complete)
+    #[kani::proof]
+    fn refresh_iceberg_all() {
+        let o = any_order();
+        let a: u64 = kani::any();
+        let r = o.refresh_iceberg(a);
+        let (id, t, u) = refresh_eval(&o, a, &r);
+        kani::assert(id, "refresh_iceberg.identity_kept");
+        kani::assert(t, "refresh_iceberg.takes_from_hidden");
+        kani::assert(u, "refresh_iceberg.other_types_unchanged");
+    }
+
+    /// C02: Side::opposite
+    #[kani::proof]
+    fn side_opposite_all() {
+        let s = any_side();
+        let o = s.opposite();
+        kani::assert(o != s && o.opposite() == s, "Side.opposite.is_the_other_side");
     }
 }
